@@ -9,6 +9,8 @@ pub mod inp;
 pub mod util;
 #[path = "../../avk/src/types.rs"]
 pub mod types;
+#[path = "../../avk/src/hists.rs"]
+pub mod hists;
 pub mod tape;
 pub mod c18;
 
